@@ -28,6 +28,25 @@ def load_variants(pid: str | None = None):
         if pid is None or v['property'] == pid:
             out.append(v)
     out.extend(seeded_variants(pid))
+    out.extend(twin_variants(pid))
+    return out
+
+
+def twin_variants(pid: str | None = None):
+    """Every confirmed behaviour-preserving refactoring (/verif/twins/<id>/patch.diff, written by independent sub-agents, suite and
+    regenerated outputs unchanged) must leave EVERY check silent: a twin of each property."""
+    out = []
+    tdir = os.path.join(VERIF, 'twins')
+    if not os.path.isdir(tdir):
+        return out
+    PROPERTY_IDS = [f'C{i:02d}' for i in range(1, 21)]
+    for name in sorted(os.listdir(tdir)):
+        pf = os.path.join(tdir, name, 'patch.diff')
+        if not os.path.exists(pf):
+            continue
+        for b in PROPERTY_IDS:
+            if pid is None or b == pid:
+                out.append({'id': f'twin:{name}', 'property': b, 'edits': [], 'patch': pf, 'expect': 'silent'})
     return out
 
 
